@@ -1019,3 +1019,90 @@ pub proof fn lemma_strlits()
     reveal_strlit("&&"); reveal_strlit("||"); reveal_strlit("+"); reveal_strlit("-"); reveal_strlit("<<");
     assert("&&"@[0] == '&'); assert("||"@[0] == '|');
 }
+
+// loops:   begin: <body>  Jump begin            while:   begin: <c>  JumpIfFalse end  <body>  Jump begin  end:
+pub open spec fn loop_tail(o: &Compiler, f: &Compiler) -> bool {
+    code(f).len() >= code(o).len() + 3 && has_op(f, code(f).len() - 3, Opcode::Jump) && (ok_enc(f) ==> target_at(f, code(f).len() - 2) == code(o).len())
+}
+pub open spec fn while_jumps(o: &Compiler, f: &Compiler, p: int) -> bool {
+    code(o).len() <= p && p + 6 <= code(f).len() && has_op(f, p, Opcode::JumpIfFalse) && (ok_enc(f) ==> target_at(f, p + 1) == code(f).len()) && loop_tail(o, f)
+}
+pub open spec fn while_loop_shape(o: &Compiler, f: &Compiler) -> bool { exists|p: int| #[trigger] while_jumps(o, f, p) }
+pub proof fn lemma_starts_disjoint(c: &Compiler, a: int, b: int)
+    requires cwf(c), is_start(c, a), is_start(c, b), a != b
+    ensures a + ilen(op_at(code(c), a)) <= b || b + ilen(op_at(code(c), b)) <= a
+{
+    let st = starts(code(c));
+    assert(swf(&sc(c)));
+    assert(starts_ok(code(c), st));
+    let i = choose|i: int| 0 <= i < st.len() && st[i] == a;
+    let j = choose|j: int| 0 <= j < st.len() && st[j] == b;
+    if i < j { lemma_starts_mono(code(c), st, i, j); } else { lemma_starts_mono(code(c), st, j, i); }
+}
+// the loop-back Jump just emitted (operand `begin`), seen from the state the loop statement started in
+pub proof fn lemma_loop_tail(o: &Compiler, sb: &Compiler, f: &Compiler, begin: usize)
+    requires begin == code(o).len(), code(o).len() <= code(sb).len(), code(f) == code(sb) + ins_bytes(Opcode::Jump, seq![begin]),
+        fits_all(Opcode::Jump, seq![begin]) || f.encoding_error is Some,
+    ensures loop_tail(o, f)
+{
+    let b = ins_bytes(Opcode::Jump, seq![begin]);
+    assert(b.len() == 3);
+    let n = code(f).len() as int;
+    assert(code(f)[n - 3] == b[0]); assert(code(f)[n - 2] == b[1]); assert(code(f)[n - 1] == b[2]);
+    if ok_enc(f) { lemma_fits_jump(Opcode::Jump, begin); lemma_target(begin); }
+}
+// a patch of another 3-byte jump keeps the loop's own jumps
+pub proof fn lemma_tail_kept(o: &Compiler, s: &Compiler, f: &Compiler, pos: int)
+    requires cwf(s), loop_tail(o, s), is_start(s, pos), is_start(s, code(s).len() - 3), pos != code(s).len() - 3, ilen(op_at(code(s), pos)) == 3,
+        code(f).len() == code(s).len(), forall|i: int| 0 <= i < code(s).len() && !(pos < i < pos + 3) ==> code(f)[i] == code(s)[i],
+        f.encoding_error is None ==> s.encoding_error is None,
+    ensures loop_tail(o, f)
+{
+    lemma_starts_disjoint(s, pos, code(s).len() - 3);
+    lemma_byte_of_op(code(s)[code(s).len() - 3]);
+}
+pub proof fn lemma_while_kept(o: &Compiler, s: &Compiler, f: &Compiler, pos: int, p: int)
+    requires cwf(s), while_jumps(o, s, p), is_start(s, pos), is_start(s, code(s).len() - 3), is_start(s, p), pos != code(s).len() - 3, pos != p, ilen(op_at(code(s), pos)) == 3,
+        code(f).len() == code(s).len(), forall|i: int| 0 <= i < code(s).len() && !(pos < i < pos + 3) ==> code(f)[i] == code(s)[i],
+        f.encoding_error is None ==> s.encoding_error is None,
+    ensures while_jumps(o, f, p)
+{
+    lemma_tail_kept(o, s, f, pos);
+    lemma_starts_disjoint(s, pos, p);
+    lemma_byte_of_op(code(s)[p]);
+}
+// the exit jump of a while loop patched to the end of the loop
+pub proof fn lemma_while_jumps(o: &Compiler, s: &Compiler, f: &Compiler, p: int)
+    requires loop_tail(o, s), code(o).len() <= p, p + 6 <= code(s).len(), op_at(code(s), p) == Opcode::JumpIfFalse, code(s).len() <= usize::MAX,
+        patched(code(s), code(f), p, code(s).len() as usize), fits_all(Opcode::JumpIfFalse, seq![code(s).len() as usize]) || f.encoding_error is Some,
+        f.encoding_error is None ==> s.encoding_error is None,
+    ensures while_jumps(o, f, p)
+{
+    lemma_patched_jump(code(s), code(f), p, code(s).len() as usize);
+    if ok_enc(f) { lemma_fits_jump(Opcode::JumpIfFalse, code(s).len() as usize); lemma_target(code(s).len() as usize); }
+}
+pub proof fn lemma_breaks_before(sb: &Compiler)
+    requires cwf(sb), sc(sb).loop_stack@.len() > 0
+    ensures forall|j: int| 0 <= j < sc(sb).loop_stack@.last().break_positions@.len() ==> #[trigger] sc(sb).loop_stack@.last().break_positions@[j] + 3 <= code(sb).len()
+{
+    let ls = sc(sb).loop_stack@;
+    let n = ls.len() as int;
+    assert(swf(&sc(sb)));
+    assert forall|j: int| 0 <= j < ls.last().break_positions@.len() implies #[trigger] ls.last().break_positions@[j] + 3 <= code(sb).len() by {
+        assert(ls.last() == ls[n - 1]);
+        let bp = ls[n - 1].break_positions@[j] as int;
+        assert(is_start(sb, bp));
+        lemma_start_bounds(sb, bp);
+    }
+}
+// one break placeholder patched: the loop's own jumps (p < 0: a `loop`, only the loop-back jump; p >= 0: a `while`, also its exit jump at p) stay
+pub proof fn lemma_jumps_kept(o: &Compiler, s: &Compiler, f: &Compiler, pos: int, p: int)
+    requires cwf(s), loop_tail(o, s), is_start(s, pos), is_start(s, code(s).len() - 3), pos + 3 <= code(s).len() - 3, op_at(code(s), pos) == Opcode::Jump,
+        p >= 0 ==> while_jumps(o, s, p) && is_start(s, p),
+        code(f).len() == code(s).len(), forall|i: int| 0 <= i < code(s).len() && !(pos < i < pos + 3) ==> code(f)[i] == code(s)[i],
+        f.encoding_error is None ==> s.encoding_error is None,
+    ensures loop_tail(o, f), p >= 0 ==> while_jumps(o, f, p)
+{
+    lemma_tail_kept(o, s, f, pos);
+    if p >= 0 { lemma_byte_of_op(code(s)[p]); lemma_while_kept(o, s, f, pos, p); }
+}
